@@ -19,6 +19,7 @@ pub trait PairT: Clone + Send + Sync + 'static {
     fn observe(&self, out: &mut Vec<PObs>);
     fn to_json(&self) -> String;
     fn from_json(s: &str) -> Self;
+    fn roundtrip_pos(&self) -> Result<Self, String>;
     fn collect_val(v: &[(f64, f64)]) -> Self;
     fn collect_ref(v: &[(f64, f64)]) -> Self;
     fn extend_val(&mut self, v: &[(f64, f64)]);
@@ -44,6 +45,9 @@ macro_rules! pair_common {
         }
         fn from_json(s: &str) -> Self {
             serde_json::from_str(s).unwrap()
+        }
+        fn roundtrip_pos(&self) -> Result<Self, String> {
+            crate::posfmt::roundtrip(self)
         }
         fn collect_val(v: &[(f64, f64)]) -> Self {
             v.iter().copied().collect()
@@ -335,7 +339,13 @@ fn apply<T: PairT>(w: &mut World<T>, op: &POp, e: &PairEmb, swap: bool) {
             w.addonly[d] = false;
         }
         POp::Clone(d, s) => {
-            w.slots[d] = w.slots[s].clone();
+            // Clone::clone / Clone::clone_from alternately: the same step of the specification
+            let src = w.slots[s].clone();
+            if (w.ghost[d].len() + w.ghost[s].len()) % 2 == 1 {
+                w.slots[d].clone_from(&src);
+            } else {
+                w.slots[d] = src;
+            }
             w.ghost[d] = w.ghost[s].clone();
             w.addonly[d] = w.addonly[s];
         }
@@ -813,6 +823,20 @@ fn replay_one<T: PairT>(h: &Value, ops: &[POp], specs: &[PSlot], e: &PairEmb, wa
                 }
                 if let Some(df) = first_diff(&before, &rb) {
                     viol::<T>(rep, "C18", fam, e, h, *s, "roundtrip", format!("restored estimator differs: {df}"), json!({"step": step + 1, "json": j}));
+                }
+                // the same through a positional (not self-describing) lossless format
+                let mut restored = restored;
+                match w1.slots[*s].roundtrip_pos() {
+                    Ok(rp) => {
+                        rep.evaluations += 1;
+                        if let Some(df) = first_diff(&before, &obs_bits(&rp)) {
+                            viol::<T>(rep, "C18", fam, e, h, *s, "roundtrip (positional format)", format!("restored estimator differs: {df}"), json!({"step": step + 1, "json": j}));
+                        }
+                        if step % 2 == 1 {
+                            restored = rp;
+                        }
+                    }
+                    Err(_) => rep.bump("positional_format_not_supported", 1),
                 }
                 w1.slots[*s] = restored;
             } else {
